@@ -294,6 +294,9 @@ enum TOp {
     Shield(ShieldSpec),
     /// enough empty blocks for coinbase maturity
     AdvanceFar { n: u8 },
+    /// a coinbase output mined in the tip block, `n` more blocks (the output is mature at the next target height iff
+    /// n + 1 >= 100), then a shielding request that asks for coinbase outputs
+    CoinbaseMatured { account: u8, slot: Slot, value: u64, n: u8, shield: ShieldSpec },
 }
 
 #[derive(Clone, Debug)]
@@ -526,7 +529,24 @@ fn arb_top(na: u8) -> impl Strategy<Value = TOp> {
         3 => arb_coin_spend().prop_map(TOp::Spend),
         1 => (any::<u32>(), 0u8..6).prop_map(|(sel, depth)| TOp::Remine { sel, depth }),
         2 => (arb_coin_recv(na), 0u8..2, 1u8..4).prop_map(|(recv, extra, n)| TOp::RecvThenReorg { recv, extra, n }),
-        2 => (92u8..=110).prop_map(|n| TOp::AdvanceFar { n }),
+        1 => (92u8..=110).prop_map(|n| TOp::AdvanceFar { n }),
+        2 => (
+            0..na.max(1),
+            arb_slot(),
+            prop_oneof![2 => Just(625_000_000u64), 3 => 10_000u64..2_000_000, 2 => arb_value()],
+            prop_oneof![3 => 97u8..=101, 1 => 92u8..=110],
+            arb_shield(),
+            (prop_oneof![6 => Just(AddrKind::Sapling), 4 => Just(AddrKind::UaFull), 3 => Just(AddrKind::UaOrchard), 3 => Just(AddrKind::OwnUa)], 0u8..2, prop::option::weighted(0.3, 1u8..4), prop::bool::weighted(0.7)),
+        )
+            .prop_map(|(account, slot, value, n, mut shield, (to, rk, limit, coinbase_api))| {
+                shield.kind = match (coinbase_api, shield.kind) {
+                    (true, _) => ShieldKind::Coinbase { to, rk, limit },
+                    (false, ShieldKind::Shield { fallback_orchard, multi, .. }) => ShieldKind::Shield { filter: 1, fallback_orchard, multi },
+                    (false, k) => k,
+                };
+                shield.all_funded = true;
+                TOp::CoinbaseMatured { account, slot, value, n, shield }
+            }),
     ]
 }
 
@@ -2908,6 +2928,17 @@ fn run_case(ctx: &Ctx, case: &C08Case) -> CaseResult {
                         if !guard(&h, r)? {
                             return excluded(&h);
                         }
+                    }
+                    TOp::CoinbaseMatured { account, slot, value, n, shield } => {
+                        let recv = CoinRecv { how: RecvHow::Coinbase, account: *account, outs: vec![(0, Some(*slot), *value)], depth: 0 };
+                        do_coin_recv(&mut h, &mut m, &mut st, &recv, &step)?;
+                        let from = h.chain.tip_height() + 1;
+                        let r = h.apply(&Op::AddEmpty(*n as u16), &step).and_then(|_| sync(&mut h, case.full_scan, from, &step));
+                        if !guard(&h, r)? {
+                            return excluded(&h);
+                        }
+                        h.ensure_tip_known(&step)?;
+                        do_shield(ctx, &mut h, &mut m, &mut st, shield, &step)?;
                     }
                     TOp::RecvThenReorg { recv, extra, n } => {
                         let from = h.chain.tip_height() + 1;
